@@ -681,7 +681,7 @@ func genExtDoc(r *hx.Rng) *xDoc {
 			}
 			// quirky shows
 			switch r.Intn(12) {
-			case 0: // no Tf: the font name in the graphics state decides
+			case 0: // no Tf: the font in the graphics state (selected by an earlier Tf, maybe the caller's) decides
 				fmt.Fprintf(&sb, "BT 1 0 0 1 40 %d Tm <%x> Tj ET\n", y, data)
 			case 1: // unbound name
 				fmt.Fprintf(&sb, "BT /Zz%d 12 Tf 1 0 0 1 40 %d Tm <%x> Tj ET\n", r.Intn(3), y, data)
@@ -766,7 +766,8 @@ func genExtDoc(r *hx.Rng) *xDoc {
 // genInheritDoc: the page selects a font and draws a form that shows a string WITHOUT a Tf of
 // its own. The text state is part of the graphics state a form inherits (ISO 32000-1 8.10.1,
 // 9.3.1): the string is text in the font the page selected. rebound = the form's own
-// resources bind the page's font name to a different font dictionary.
+// resources bind the page's font name to a different font dictionary (before fix fa0c44f the
+// extractor looked the name up again at the show and decoded by the form's font).
 func genInheritDoc(r *hx.Rng) (d *xDoc, rebound bool) {
 	d = &xDoc{objs: map[int]*xObj{}, clean: true}
 	mk := func(enc string, m *lmap) (*mfGen, int) {
